@@ -442,6 +442,7 @@ PROPS["C18"]["mc"] = cluster_mc([
                "one datagram of every kind injected, every delivery order; Terminates under weak fairness", BOTH),
     ("c18_n2r", "as above with renewable identities", ("thorough",)),
     ("c18_n2l", "as above with identities whose renew() yields an identity that loses the conflict", ("thorough",)),
+    ("c18_n2c", "as above with identities whose renew() cycles through 4 generations (wins, then wraps around and loses)", ("thorough",)),
 ])
 for k, extra in (("C02", "TLC first checks the same monitor exhaustively on MC_Cluster (2 and 3 FocaNode instances, network, timers, coarse "
                          "time grid with every same-tick interleaving) up to the discovery bound. "),
